@@ -1,6 +1,7 @@
 import FFVerif.Props.C17
 import FFVerif.Pins.pinJoinEqualSegments
 import FFVerif.Pins.pinHashArray
+import FFVerif.Pins.pinConcatenateHamiltonian
 #print axioms FFVerif.C17.parse_sorted
 #print axioms FFVerif.C17.parse_keeps_association
 #print axioms FFVerif.C17.parse_given_identifier
@@ -32,3 +33,4 @@ import FFVerif.Pins.pinHashArray
 #print axioms FFVerif.C17.slice_concat_roundtrip
 #print axioms FFVerif.Pins.pinJoinEqualSegments
 #print axioms FFVerif.Pins.pinHashArray
+#print axioms FFVerif.Pins.pinConcatenateHamiltonian
